@@ -123,7 +123,11 @@ def check_cli(case) -> Result:
             stdin = src
         else:
             cmd.append(inp)
-        p = subprocess.run(cmd, input=stdin, capture_output=True, text=True, timeout=120)
+        try:
+            p = subprocess.run(cmd, input=stdin, capture_output=True, text=True, timeout=300)
+        except subprocess.TimeoutExpired:
+            r.rejected = "cli-timeout(machine load)"  # a time budget hit is inconclusive, never a violation
+            return r
         if mode == "outfile" and p.returncode == 0:
             got = open(outp).read()
         else:
